@@ -302,7 +302,7 @@ class Evaluator:
                     from .model import fold, NotConst
 
                     try:
-                        v = fold(mod.assigns[e.id], mod)
+                        v = mod.const(e.id)
                     except NotConst:
                         raise Unsupported("module-level name `%s` is not a constant (line %d)" % (e.id, e.lineno))
                     if isinstance(v, bool) or not isinstance(v, int):
